@@ -59,7 +59,7 @@ from .common import fmt_diff
 
 ID = "C11"
 FRESH_FORK = True
-CASE_TIMEOUT = 1500
+CASE_TIMEOUT = 1200
 OP_TIMEOUT = 240
 RULE = ("state = (input expression with explicit targets, operation with its "
         "arguments); one transition = one call of expand_intermediates / "
@@ -1346,6 +1346,27 @@ def _buildable(spec):
 
 
 def generate(tier):
+    lists_tier = tier
+    out = _generate(lists_tier)
+    if tier == "thorough":
+        # The thorough tier enumerates the LARGER input lists (index tuples,
+        # pairs, perturbation bases, derivations, RE inputs) but keeps the
+        # per-input request / modification lists of the quick tier: with the
+        # thorough inner lists single inputs needed > 16 GB and hours (first
+        # complete attempt was killed by the OOM killer), see DESIGN 8.2a.
+        out = [(c[0], "quick") + tuple(c[2:]) for c in out]
+        seen = set()
+        uniq = []
+        for c in out:
+            k = repr(c)
+            if k not in seen:
+                seen.add(k)
+                uniq.append(c)
+        out = uniq
+    return out
+
+
+def _generate(tier):
     _warm()
     out = []
     zero = 0
